@@ -126,7 +126,11 @@ class Ctx:
             'coverage': cov, 'assumptions': self.assumptions, 'wall_s': round(wall, 2),
             'violations': n_viol,
         }
-        with open(os.path.join(EVID, self.prop + '.json'), 'w') as f:
+        # runs against another tree (VERIF_REPO, seeded-change experiments) must not overwrite the evidence
+        # of the tree under /repo
+        evdir = EVID if os.path.realpath(repo_root()) == '/repo' else os.path.join(EVID, 'alt')
+        os.makedirs(evdir, exist_ok=True)
+        with open(os.path.join(evdir, self.prop + '.json'), 'w') as f:
             json.dump(ev, f, indent=1, default=str)
         import shutil
         shutil.rmtree(self.scratch, ignore_errors=True)
